@@ -8,6 +8,53 @@ import sys
 VERIF = os.path.dirname(os.path.dirname(os.path.abspath(__file__)))
 
 CHECKS = {
+    "C01": dict(
+        category="model_checking", design_ref="DESIGN.md section 4 (C01)",
+        technique="TLA+ spec AmBits/AmShape/AmExpr (typed stack machine, one action per operator) enumerated by TLC; "
+                  "every reachable state (program + expected shape + value table over all valuations) replayed on the "
+                  "real amaranth in a simulated circuit",
+        text="TLC enumerates every single operator over every pair of leaf shapes (widths 0..3 quick / 0..4 thorough, "
+             "signed/unsigned/constants/zero width) with ALL operand values, three-operand choice operators, all "
+             "two-operator compositions (thorough) and random deep compositions, checking on the model that every value "
+             "lies in the range of the documented result shape (NoOverflow). Each program is then built through the "
+             "public operator API, its reported shape compared with the model and a circuit computing it simulated "
+             "for every valuation against TLC's table.",
+        note="Trusted: TLC, the program renderer (postfix record -> Python operator call), pysim's ctx.set/ctx.get on "
+             "plain signals. Widths of intermediates <= 24 bits (TLC 32-bit integers). Constant part-select offsets "
+             "only inside the operand; array indices in range."),
+    "C05": dict(
+        category="model_checking", design_ref="DESIGN.md section 4 (C05)",
+        technique="same TLC-enumerated AmExpr programs as C01, evaluated by the testbench tree walker ctx.get(expr); "
+                  "write side: AmLhs target programs replayed with ctx.set",
+        text="Every AmExpr program TLC enumerates (see C01) is also evaluated with ctx.get(expr) inside a testbench for "
+             "every valuation; the value must equal TLC's table, which C01 binds to the compiled circuit, so the two "
+             "interpreters are compared through the specification. Zero-width selectors and operands are in the box.",
+        note="Trusted: TLC, the program renderer. A mismatch of the compiled circuit is reported by C01, of the "
+             "testbench evaluator here."),
+    "C10": dict(
+        category="model_checking", design_ref="DESIGN.md section 4 (C10)",
+        technique="declarative TLA+ definitions (least width, congruence mod 2^w) enumerated by TLC over integer boxes "
+                  "with minimality/uniqueness invariants; every enumerated case asked of the real API",
+        text="AmShape defines casting of ranges/enumerations and constant normalisation declaratively; TLC enumerates "
+             "all ranges, enumerations, (value, shape) pairs, bit-count arguments, range-shaped initial values and "
+             "constant Cat/Slice expressions inside stated boxes, proves the exactness/minimality theorems on each, and "
+             "every case is replayed on Shape.cast, Const, Signal(init=), MemoryData(init=), bits_for, ceil_log2, "
+             "Const.cast. Exhaustive inside the boxes.",
+        note="Trusted: TLC and the thin Python glue that phrases each case as an API call. Boxes: see evidence assumptions."),
+    "C17": dict(
+        category="model_checking", design_ref="DESIGN.md section 4 (C17)",
+        technique="TLA+ spec Cdc (contract operators + implementation-structured models) model-checked by TLC with "
+                  "seeded mutants; edge-covering tours and random schedules on the real primitives validated by TLC "
+                  "against CdcTrace",
+        text="TLC exhaustively checks models of FFSynchronizer, AsyncFFSynchronizer/ResetSynchronizer and "
+             "PulseSynchronizer against the documented latency, release and pulse contracts over every interleaving of "
+             "clock edges, coincident edges, input changes and resets (stages 2-4, widths 1-2, all inits). The real "
+             "classes are bound to the same contract operators by trace validation of tours of the model graphs and "
+             "seeded random schedules executed in pysim, each event judged by TLC.",
+        note="Trusted: TLC, pysim as executor, the recording testbench (one ctx.set per event; edge-coincident input "
+             "changes come from a harness source register because direct testbench races are unspecified). Pulse "
+             "contract assumes an output-clock edge strictly between consecutive input pulses; power-on output of the "
+             "async synchronisers adopted from observation."),
     "C12": dict(
         category="model_checking", design_ref="DESIGN.md section 4 (C12)",
         technique="TLA+ spec (FifoObs/Fifo/FifoImpl) model-checked by TLC; edge-covering tours of the model graph "
